@@ -253,6 +253,14 @@ static vh_rng_t sim_rng;   /* scheduler / network randomness */
 static int      sim_destroyed; /* channel destroyed */
 static int      sim_in_destroy;
 
+/* set of (socket op, transport, outcome class) tuples seen in this case: the C10 fingerprint */
+static uint64_t sim_fd_shape[4];
+static void     sim_shape(int op, int tcp, int outcome)
+{
+  unsigned bit = (unsigned)(op * 16 + tcp * 8 + outcome) & 255u;
+  sim_fd_shape[bit >> 6] |= 1ULL << (bit & 63);
+}
+
 /* counters of what the monitors observed */
 static void sim_note(const char *what)
 {
@@ -359,11 +367,13 @@ static int sim_find_srv(const struct sockaddr *sa, int is_tcp)
 }
 
 /* decide whether call of `kind` fails now; returns errno or 0 */
+static int sim_fault_tcp_hint; /* set by callers: transport of the socket the call is about */
 static int sim_fault(int kind)
 {
   int i;
   sim_callcount[kind]++;
   sim_callcount_all++;
+  sim_shape(kind, sim_fault_tcp_hint, 0);
   for (i = 0; i < sim_nfaults; i++) {
     sim_fault_t *f = &sim_faults[i];
     if (f->fired) {
@@ -374,6 +384,7 @@ static int sim_fault(int kind)
       f->fired = 1;
       sim_faults_fired++;
       case_ev(1, (unsigned)kind);
+      sim_shape(kind, sim_fault_tcp_hint, 1 + (f->err % 6));
       {
         char nm[64];
         snprintf(nm, sizeof(nm), "fault_fired_%s", sf_names[kind]);
@@ -410,6 +421,7 @@ static ares_socket_t vs_socket(int domain, int type, int protocol, void *ud)
   if (sim_destroyed) {
     vh_violation("fd:call-after-destroy:socket", "socket() after ares_destroy returned");
   }
+  sim_fault_tcp_hint = (type == SOCK_STREAM);
   e = sim_fault(SF_SOCKET);
   if (e) {
     errno = e;
@@ -464,6 +476,7 @@ static int vs_close(ares_socket_t s, void *ud)
     return -1;
   }
   /* a failing close() still releases the descriptor (POSIX leaves it unspecified; Linux releases) */
+  sim_fault_tcp_hint = vsock[s].is_tcp;
   e = sim_fault(SF_CLOSE);
   vsock[s].state = VS_CLOSED;
   sim_open_count--;
@@ -503,7 +516,8 @@ static int vs_setsockopt(ares_socket_t s, ares_socket_opt_t opt, const void *val
       errno = ENOSYS;
       return -1;
     }
-    e = sim_fault(SF_SETSOCKOPT);
+    sim_fault_tcp_hint = vsock[s].is_tcp;
+  e = sim_fault(SF_SETSOCKOPT);
     if (e) {
       errno = e;
       return -1;
@@ -511,6 +525,7 @@ static int vs_setsockopt(ares_socket_t s, ares_socket_opt_t opt, const void *val
     vsock[s].tfo = 1;
     return 0;
   }
+  sim_fault_tcp_hint = vsock[s].is_tcp;
   e = sim_fault(SF_SETSOCKOPT);
   if (e) {
     errno = e;
@@ -531,6 +546,7 @@ static int vs_bind(ares_socket_t s, unsigned int flags, const struct sockaddr *s
     errno = EBADF;
     return -1;
   }
+  sim_fault_tcp_hint = vsock[s].is_tcp;
   e = sim_fault(SF_BIND);
   if (e) {
     errno = e;
@@ -552,6 +568,7 @@ static int vs_connect(ares_socket_t s, const struct sockaddr *sa, ares_socklen_t
     return -1;
   }
   v = &vsock[s];
+  sim_fault_tcp_hint = vsock[s].is_tcp;
   e = sim_fault(SF_CONNECT);
   if (e) {
     errno = e;
@@ -610,6 +627,7 @@ static int vs_getsockname(ares_socket_t s, struct sockaddr *sa, ares_socklen_t *
     errno = EBADF;
     return -1;
   }
+  sim_fault_tcp_hint = vsock[s].is_tcp;
   e = sim_fault(SF_GETSOCKNAME);
   if (e) {
     errno = e;
@@ -670,6 +688,7 @@ static ares_ssize_t vs_sendto(ares_socket_t s, const void *buf, size_t len, int 
     return -1;
   }
   v = &vsock[s];
+  sim_fault_tcp_hint = vsock[s].is_tcp;
   e = sim_fault(SF_SENDTO);
   if (e) {
     errno = e;
@@ -763,6 +782,7 @@ static ares_ssize_t vs_recvfrom(ares_socket_t s, void *buf, size_t len, int flag
     return -1;
   }
   v = &vsock[s];
+  sim_fault_tcp_hint = vsock[s].is_tcp;
   e = sim_fault(SF_RECVFROM);
   if (e) {
     errno = e;
